@@ -31,6 +31,9 @@ def run(check: Check, repo: Repo, tier: str) -> None:
     L.kind_of_current_node(check, repo)
     L.sentinel_twins(check, repo)
     L.edit_sentinel(check, repo)
+    L.removed_child_is_none(check, repo)
+    L.enter_leave_table(check, repo)
+    L.iteration_local(check, repo)
     L.result_filter(check, repo)
     L.edit_offset(check, repo)
     L.parallel_returns(check, repo)
